@@ -7,6 +7,8 @@ import (
 	"fmt"
 	"math/rand"
 	"os"
+	"strings"
+	"sync/atomic"
 
 	"mosn.io/api"
 	"mosn.io/pkg/buffer"
@@ -95,7 +97,19 @@ type runRes struct {
 	Out      string `json:"out"`
 	Consumed int    `json:"consumed"`
 	Alloc    uint64 `json:"alloc"`
+	Dup      int    `json:"dup"` // buffers the shared pool got back more often than it handed them out, decode + release of the context
 	fp       string
+}
+
+// the shared IoBuffer pool reports a buffer given back twice through its public log function
+var poolDup int64
+
+func init() {
+	buffer.SetLogFunc(func(msg string) {
+		if strings.Contains(msg, "PutIoBuffer duplicate") {
+			atomic.AddInt64(&poolDup, 1)
+		}
+	})
 }
 
 // allocation is measured process wide: a large reading is confirmed by repeating the call (the decoder's own
@@ -125,12 +139,22 @@ func decodeOnce1(codec string, data []byte, tail string) runRes {
 	r := runRes{Tail: tail}
 	var cmd interface{}
 	var err error
+	dup0 := atomic.LoadInt64(&poolDup)
 	st, alloc := guarded(func() { cmd, err = proto.Decode(ctx, iob) })
 	r.Alloc = alloc
 	if st == "loop" {
 		r.Out = "loop"
 		return r
 	}
+	// the stream that owns the decoded frame ends: its buffer-pool context is released (downStream.giveStream), which
+	// gives the frame's pooled copy back - exactly once, whatever the decoder made of the input
+	func() {
+		defer func() { recover() }()
+		if pc := buffer.PoolContext(ctx); pc != nil {
+			pc.Give()
+		}
+	}()
+	r.Dup = int(atomic.LoadInt64(&poolDup) - dup0)
 	func() {
 		defer func() { recover() }()
 		r.Consumed = before - iob.Len()
